@@ -1,0 +1,198 @@
+//go:build verif
+// +build verif
+
+package isaacstates
+
+import (
+	"context"
+
+	"github.com/pkg/errors"
+	"github.com/spikeekips/mitum/base"
+)
+
+// The accessors below let the conformance harness (/verif, specification
+// Handover.tla, id HANDOVER) drive real HandoverXBroker / HandoverYBroker
+// objects the way States and the state handlers do (the entry points the
+// handlers use are unexported) and read the counters the specification
+// models. No behaviour of the brokers is changed.
+
+// VerifSendVoteproof is what ConsensusHandler.whenNewVoteproof calls.
+func (broker *HandoverXBroker) VerifSendVoteproof(ctx context.Context, vp base.Voteproof) (bool, error) {
+	return broker.sendVoteproof(ctx, vp)
+}
+
+// VerifSendBallot is what baseBallotHandler.sendBallotToHandoverY calls.
+func (broker *HandoverXBroker) VerifSendBallot(ctx context.Context, bl base.Ballot) error {
+	return broker.sendBallot(ctx, bl)
+}
+
+// VerifFinish is what States.checkOutOfHandoverX calls (with nil, nil).
+func (broker *HandoverXBroker) VerifFinish(ivp base.INITVoteproof, pr base.ProposalSignFact) error {
+	return broker.finish(ivp, pr)
+}
+
+// VerifCancel is what States.CancelHandoverXBroker and SetAllowConsensus call.
+func (broker *HandoverXBroker) VerifCancel(err error) { broker.cancel(err) }
+
+// VerifStop is what the clean-up timer of patchStates calls.
+func (broker *HandoverXBroker) VerifStop() { broker.stop() }
+
+func (broker *HandoverXBroker) VerifIsCanceled() bool { return broker.isCanceled() != nil }
+
+func (broker *HandoverXBroker) VerifIsFinished() bool { return broker.isFinished() }
+
+// VerifXCounters is a snapshot of the challenge bookkeeping.
+type VerifXCounters struct {
+	Success            uint64
+	ReadyEnd           uint64
+	ChallengeCount     uint64
+	LastChallengeCount uint64
+	SendFailure        uint64
+	HasLastVoteproof   bool
+	LastVoteproof      base.StagePoint
+	HasPrevChallenge   bool
+	PrevChallenge      base.StagePoint
+}
+
+func (broker *HandoverXBroker) VerifCounters() (c VerifXCounters) {
+	_ = broker.successcount.Get(func(n uint64, _ bool) error {
+		c.Success = n
+		c.ReadyEnd = broker.readyEnd
+		c.ChallengeCount = broker.challengecount
+		c.LastChallengeCount = broker.lastchallengecount
+
+		if broker.lastVoteproof != nil {
+			c.HasLastVoteproof = true
+			c.LastVoteproof = broker.lastVoteproof.Point()
+		}
+
+		if !broker.previousChallengeHandover.IsZero() {
+			c.HasPrevChallenge = true
+			c.PrevChallenge = broker.previousChallengeHandover
+		}
+
+		return nil
+	})
+
+	c.SendFailure, _ = broker.sendFailureCount.Value()
+
+	return c
+}
+
+// VerifSetStatesFuncs sets the functions patchStates installs.
+func (broker *HandoverXBroker) VerifSetStatesFuncs(whenFinished func(base.INITVoteproof) error, whenCanceled func(error)) {
+	if whenFinished != nil {
+		broker.whenFinishedf = whenFinished
+	}
+
+	if whenCanceled != nil {
+		broker.whenCanceledf = whenCanceled
+	}
+}
+
+// VerifSendStagePoint is what HandoverHandler.whenNewVoteproof calls.
+func (broker *HandoverYBroker) VerifSendStagePoint(ctx context.Context, point base.StagePoint) error {
+	return broker.sendStagePoint(ctx, point)
+}
+
+// VerifSendBlockMap is what HandoverHandler.whenNewBlockSaved calls.
+func (broker *HandoverYBroker) VerifSendBlockMap(ctx context.Context, point base.StagePoint, m base.BlockMap) error {
+	return broker.sendBlockMap(ctx, point, m)
+}
+
+// VerifCancel is what States.CancelHandoverYBroker and SetAllowConsensus call.
+func (broker *HandoverYBroker) VerifCancel(err error) { broker.cancel(err) }
+
+// VerifStop is what HandoverHandler.exit calls after a finished handover.
+func (broker *HandoverYBroker) VerifStop() { broker.stop() }
+
+func (broker *HandoverYBroker) VerifIsCanceled() bool { return broker.isCanceled() != nil }
+
+func (broker *HandoverYBroker) VerifIsFinished() bool {
+	i, _ := broker.isFinishedLocked.Value()
+
+	return i
+}
+
+func (broker *HandoverYBroker) VerifIsReadyToAsk() bool {
+	i, _ := broker.isReadyToAsk.Value()
+
+	return i
+}
+
+func (broker *HandoverYBroker) VerifIsDataSynced() bool {
+	i, _ := broker.isDataSynced.Value()
+
+	return i
+}
+
+func (broker *HandoverYBroker) VerifSendFailure() uint64 {
+	i, _ := broker.sendFailureCount.Value()
+
+	return i
+}
+
+// VerifSetStatesFuncs sets the functions patchStates installs
+// (newVoteprooff has no default).
+func (broker *HandoverYBroker) VerifSetStatesFuncs(
+	newVoteproof func(base.Voteproof) error,
+	whenFinished func(base.INITVoteproof) error,
+	whenCanceled func(error),
+) {
+	if newVoteproof != nil {
+		broker.newVoteprooff = newVoteproof
+	}
+
+	if whenFinished != nil {
+		broker.whenFinishedf = whenFinished
+	}
+
+	if whenCanceled != nil {
+		broker.whenCanceledf = whenCanceled
+	}
+}
+
+// Constructors of the handover messages (unexported in handover_message.go),
+// for messages the harness forges (wrong id, wrong direction, stale copies).
+
+func VerifNewHandoverMessageChallengeStagePoint(id string, point base.StagePoint) HandoverMessageChallengeStagePoint {
+	return newHandoverMessageChallengeStagePoint(id, point)
+}
+
+func VerifNewHandoverMessageChallengeBlockMap(
+	id string, point base.StagePoint, m base.BlockMap,
+) HandoverMessageChallengeBlockMap {
+	return newHandoverMessageChallengeBlockMap(id, point, m)
+}
+
+func VerifNewHandoverMessageChallengeResponse(
+	id string, point base.StagePoint, ok bool, err error,
+) HandoverMessageChallengeResponse {
+	return newHandoverMessageChallengeResponse(id, point, ok, err)
+}
+
+func VerifNewHandoverMessageFinish(id string, vp base.INITVoteproof, pr base.ProposalSignFact) HandoverMessageFinish {
+	return newHandoverMessageFinish(id, vp, pr)
+}
+
+func VerifNewHandoverMessageData(id string, t HandoverMessageDataType, i interface{}) HandoverMessageData {
+	return newHandoverMessageData(id, t, i)
+}
+
+// VerifHandoverErrorClass names the class of an error a broker returns.
+func VerifHandoverErrorClass(err error) string {
+	switch {
+	case err == nil:
+		return "nil"
+	case errors.Is(err, ErrHandoverCanceled):
+		return "canceled"
+	case errors.Is(err, ErrHandoverStopped):
+		return "stopped"
+	case errors.Is(err, errHandoverIgnore):
+		return "ignore"
+	case errors.Is(err, errHandoverReset):
+		return "reset"
+	default:
+		return "error"
+	}
+}
